@@ -35,3 +35,39 @@ V("proto-returns-ignores-abi", "C02", "pyteal/ast/subroutine.py", "            1
 V("callsub-args-reversed", "C02", "pyteal/ast/subroutine.py", "*[handle_arg(x) for x in self.args])", "*[handle_arg(x) for x in reversed(self.args)])", "R02.1")
 V("recursion-points-direct-only", "C02", "pyteal/compiler/subroutines.py", "            if graph_search(subroutineGraph, callee, subroutine)", "            if callee == subroutine", "R02.4")
 V("twin-spill-rename", "C02", "pyteal/compiler/subroutines.py", "                numArgs = reentrySubroutineCall.argument_count()", "                calleeDef = reentrySubroutineCall\n                numArgs = calleeDef.argument_count()", None, "quiet")
+
+# ------------------------------------------------------------------------------- C05
+V("wideratio-cover-1", "C16", "pyteal/ast/widemath.py", "                    TealOp(expr, Op.cover, 2),  # stack: [..., A*C, B, C]", "                    TealOp(expr, Op.cover, 1),  # stack: [..., A*C, B, C]", None)
+V("wideratio-drop-pop", "C05", "pyteal/ast/widemath.py", "                TealOp(self, Op.pop),  # pop remainder low word\n", "", "R05.3")
+V("suffix-dig-0", "C05", "pyteal/ast/substring.py", "                    TealOp(self, Op.dig, 1),\n                    TealOp(self, Op.len),", "                    TealOp(self, Op.dig, 0),\n                    TealOp(self, Op.len),", "R05.3")
+V("dupn-off-by-one", "C05", "pyteal/ast/frame.py", "        op = TealOp(self, Op.dupn, self.repetition)", "        op = TealOp(self, Op.dupn, self.repetition + 1)", "R05.3")
+V("localseg-count", "C05", "pyteal/ast/frame.py", "        return DupN(self.auto_instance, self.count - 1).__teal__(options)", "        return DupN(self.auto_instance, self.count).__teal__(options)", "R05.3")
+V("multivalue-stores-forward", "C05", "pyteal/ast/multi.py", "for slot in reversed(self.output_slots):", "for slot in self.output_slots:", "R05.3")
+V("require-type-anytype-none", "C05", "pyteal/types.py", "        expected == TealType.none\n        or actual == TealType.none\n        or ", "        expected == TealType.none\n        or ", "R05.6")
+V("while-cond-unchecked", "C05", "pyteal/ast/while_.py", "        require_type(cond, TealType.uint64)\n", "", "R05.4")
+V("for-step-unchecked", "C05", "pyteal/ast/for_.py", "        require_type(step, TealType.none)\n", "", "R05.4")
+V("seq-check-all-but-first", "C05", "pyteal/ast/seq.py", "            if i + 1 < len(exprs):", "            if 0 < i + 1 < len(exprs) - 1:", "R05.4")
+
+# ------------------------------------------------------------------------------- C04
+V("sweep-mode-dropped", "C04", "pyteal/compiler/compiler.py", "        verifyOpsForMode(components, options.mode)\n", "", None)
+V("sweep-version-off-by-one", "C04", "pyteal/compiler/compiler.py", "            if op.min_version > version:", "            if op.min_version > version + 1:", "R04.5")
+V("sweep-before-flatten", "C04", "pyteal/compiler/compiler.py", "        verifyOpsForVersion(components, options.version)\n", "        verifyOpsForVersion(components, options.version) if False else None\n", "R04.5")
+V("assemble-accepts-slot", "C04", "pyteal/ir/tealop.py", "            if isinstance(arg, ScratchSlot):\n                raise TealInternalError(\"Slot not assigned: {}\".format(arg))\n", "", "R04.6")
+V("assignslot-first-only", "C04", "pyteal/ir/tealop.py", "            if slot == arg:\n                self.args[i] = location", "            if slot == arg:\n                self.args[i] = location\n                break", "R04.6")
+V("label-prefix-missing-sep", "C04", "pyteal/compiler/flatten.py", "        labelPrefix = label + \"_\"", "        labelPrefix = label", "R04.7")
+V("sub-label-no-index", "C04", "pyteal/compiler/subroutines.py", "        subroutineToLabel[subroutine] = \"{}_{}\".format(safer_name, index)", "        subroutineToLabel[subroutine] = \"{}_{}\".format(safer_name, len(safer_name))", "R04.7")
+V("if-has-return-or", "C04", "pyteal/ast/if_.py", "        return self.thenBranch.has_return() and self.elseBranch.has_return()", "        return self.thenBranch.has_return() or self.elseBranch.has_return()", "R04.8")
+V("seq-has-return-nonempty", "C04", "pyteal/ast/seq.py", "        return self.args[-1].has_return()", "        return self.args[0].has_return() or self.args[-1].has_return() or len(self.args) > 2", "R04.8")
+V("op-minversion-accessor", "C04", "pyteal/ir/ops.py", "        return self.value.min_version", "        return min(self.value.min_version, 2)", "R04.0")
+V("op-row-version", "C04", "pyteal/ir/ops.py", "OpType(\"sha3_256\",            Mode.Signature | Mode.Application,  7)", "OpType(\"sha3_256\",            Mode.Signature | Mode.Application,  6)", "R04.1")
+V("constants-at-v2", "C04", "pyteal/compiler/compiler.py", "            if self.version < 3:", "            if self.version < 2:", "R04.5")
+V("twin-sweep-rename", "C04", "pyteal/compiler/compiler.py", "        verifyOpsForVersion(components, options.version)\n        verifyOpsForMode(components, options.mode)", "        verifyOpsForMode(components, options.mode)\n        verifyOpsForVersion(components, options.version)", None, "quiet")
+
+# ------------------------------------------------------------------------------- C03
+V("opt-scan-from-current", "C03", "pyteal/compiler/optimizer/optimizer.py", "    for block in TealBlock.Iterate(start):\n        for i, op in enumerate(block.ops):", "    for block in TealBlock.Iterate(cur_block):\n        for i, op in enumerate(block.ops):", "R03.2")
+V("opt-skip-ignored", "C03", "pyteal/compiler/optimizer/optimizer.py", "        if set(op.getSlots()).issubset(skip_slots):\n            continue\n", "", "R03.3")
+V("opt-skip-no-globals", "C03", "pyteal/compiler/scratchslots.py", "    unoptimized_slots.update(global_slots)\n", "", "R03.1")
+V("opt-skip-no-dynamic", "C03", "pyteal/compiler/scratchslots.py", "                if op.op == Op.int or slot.isReservedSlot:", "                if slot.isReservedSlot:", "R03.1")
+V("opt-default-v8", "C03", "pyteal/compiler/compiler.py", "DEFAULT_SCRATCH_SLOT_OPTIMIZE_VERSION = 9", "DEFAULT_SCRATCH_SLOT_OPTIMIZE_VERSION = 8", "R03.4")
+V("fp-true-below-8-accepted", "C03", "pyteal/compiler/optimizer/optimizer.py", "        if self._frame_pointers:\n            verifyProgramVersion(", "        if self._frame_pointers and version < 0:\n            verifyProgramVersion(", "R03.4")
+V("opt-different-slot-cancel", "C03", "pyteal/compiler/optimizer/optimizer.py", "        if cur_slots[0] != next_slots[0]:\n            continue\n", "", "R03.3")
